@@ -20,6 +20,7 @@ RULE = (
     "side), real losses of complex parameters (grad == dL/dx - i dL/dy), real->real functions through fft round trips "
     "against a purely real implementation. Non-trivial = at least one complex argument or result; distinct by (template, "
     "feature tuple, complex mask)."
+    ' kind_change: complex data with numerically zero imaginary parts through real_if_close (real tangent for the real result, complex cotangent).'
 )
 
 
